@@ -41,9 +41,10 @@ type IOCase struct {
 func init() {
 	Register(&Engine{
 		Name: "c02", Prop: "C02",
-		Rule: "enumerated part: every base document of sim/corpus.go (single Newick, multi-tree streams, Nexus, PhyloXML, Nextstrain) × truncation after k bytes " +
+		Rule: "enumerated part (both tiers): every base document of sim/corpus.go (single Newick, multi-tree streams, Nexus, PhyloXML, Nextstrain) × truncation after k bytes " +
 			"for EVERY k × {EOF, read error} × chunk plans {1 byte, 7 bytes, whole} × every reader entry point of the format (own parser, ReadTreeReader, " +
-			"ReadMultiTrees with its real goroutine under the scheduler), bufio size 16. Sampled part: base or generated document × 0..3 mutations (byte flip, " +
+			"ReadMultiTrees with its real goroutine under the scheduler), bufio size 16; thorough tier also enumerates every single-byte substitution by each of 20 structural " +
+			"bytes and every single-byte deletion at every offset of every base document. Sampled part: base or generated document × 0..3 mutations (byte flip, " +
 			"structural byte insertion, deletion, duplication, splice of another document; biased to structural bytes) × optional truncation × chunk plan " +
 			"(incl. zero-length reads) × bufio size {16,17,64,4096,65536} × error delivered with or after the last bytes; deep nesting up to 10^5. Every " +
 			"delivered tree is traversed, indexed, written (Newick, Nexus, PhyloXML) and cloned. Non-trivial: the fault fired inside the document or the " +
@@ -96,6 +97,35 @@ func enumC02(tier string, batch, nbatch int) []any {
 						if i%nbatch == batch {
 							out = append(out, &IOCase{Format: d.Format, Entry: entry, Base: d.Name, Doc: d.Text, Limit: k, EndErr: ee, Chunks: ch, BufSz: 16,
 								Sched: SchedCase{Strategy: i % 3, Seed: uint64(i)}})
+						}
+						i++
+					}
+				}
+			}
+		}
+	}
+	if tier == "thorough" {
+		// second enumerated family: every single-byte substitution by a structural byte, and every single-byte deletion, at every offset
+		subst := []byte("()[],:;='\"<>{}/ \n&-0")
+		for _, d := range corpus {
+			for _, entry := range ioEntries[d.Format] {
+				if entry == "multi" && d.Format != "multi" && d.Format != "newick" {
+					continue // the multi entry of the other formats differs from "single" only after parsing
+				}
+				for k := 0; k < len(d.Text); k++ {
+					for si := -1; si < len(subst); si++ {
+						if si >= 0 && subst[si] == d.Text[k] {
+							continue
+						}
+						if i%nbatch == batch {
+							doc := d.Text[:k] + d.Text[k+1:]
+							base := fmt.Sprintf("%s+delete@%d/1", d.Name, k)
+							if si >= 0 {
+								doc = d.Text[:k] + string(subst[si]) + d.Text[k+1:]
+								base = fmt.Sprintf("%s+flip@%d=%q", d.Name, k, subst[si])
+							}
+							out = append(out, &IOCase{Format: d.Format, Entry: entry, Base: base, Doc: doc, Limit: -1, EndErr: "eof", Chunks: []int{4096}, BufSz: 64,
+								Sched: SchedCase{Strategy: 1}})
 						}
 						i++
 					}
